@@ -188,7 +188,32 @@ def run(tier="quick", seed=0, repo="/repo"):
     cur.execute("select table_schema, table_name from information_schema.tables where table_name like '%fs_%' or table_name in ('databases', 'views')")
     internal = cur.fetchall()
     t.case("internal-visible:information_schema.tables", ("internal",), not internal, function="fakesnow.info_schema", case={}, expected="none of fakesnow's internal tables listed", actual=repr(internal))
-    return t.result(bound=f"histories of <= {n} statements over {len(OPS)} DDL statements after one CREATE TABLE")
+    # equally named tables with equally named columns in several schemas / databases: every scope reports its own declaration
+    fs = new_instance(repo)
+    conn = fs.connect("db1", "s1")
+    cur = conn.cursor()
+    decl = {("DB1", "S1"): 11, ("DB1", "S2"): 22, ("DB2", "S1"): 33}
+    cur.execute("create schema db1.s2")
+    cur.execute("create database db2")
+    cur.execute("create schema db2.s1")
+    for (db, sch), n_ in decl.items():
+        cur.execute(f"create table {db}.{sch}.same (id int, name varchar({n_}), note varchar) comment = 'c{n_}'")
+    for (db, sch), n_ in decl.items():
+        want_cols = [("ID", None), ("NAME", n_), ("NOTE", 16777216)]
+        checks = {
+            "columns": (f"select column_name, character_maximum_length from {db}.information_schema.columns where table_catalog = '{db}' and table_schema = '{sch}' and table_name = 'SAME' order by ordinal_position", want_cols),
+            "describe": (f"describe table {db}.{sch}.same", [("ID", "NUMBER(38,0)"), ("NAME", f"VARCHAR({n_})"), ("NOTE", "VARCHAR(16777216)")]),
+            "comment": (f"select comment from {db}.information_schema.tables where table_catalog = '{db}' and table_schema = '{sch}' and table_name = 'SAME'", [(f"c{n_}",)]),
+        }
+        for aspect, (sql, want) in checks.items():
+            try:
+                cur.execute(sql)
+                got = [tuple(r[:2]) if aspect != "comment" else tuple(r) for r in cur.fetchall()]
+                ok, detail = got == want, repr(got)
+            except Exception as e:  # noqa: BLE001
+                ok, detail = False, f"{type(e).__name__}: {str(e)[:160]}"
+            t.case(f"scope-{aspect}:{db}.{sch}.same", ("scope", aspect, db, sch), ok, function="fakesnow.info_schema", case={"sql": sql}, expected=repr(want), actual=detail)
+    return t.result(bound=f"histories of <= {n} statements over {len(OPS)} DDL statements after one CREATE TABLE; one table name declared differently in 3 scopes x 3 metadata surfaces")
 
 
 def replay(case, repo):
